@@ -176,6 +176,7 @@ class SStr(Sym):
                 v = z3.Int('%s_%d' % (name, i))
                 c.declare_input('%s_%d' % (name, i), v)
                 c.assume(k.z3in(v))
+                c.var_ranges[str(v)] = (k.r[0][0], k.r[-1][1], v)
                 cells.append(Var(v, k))
         return mk(cells)
 
@@ -663,6 +664,7 @@ def str_of_int(n, max_digits=12):
             for i in range(d):
                 v = c.fresh('dg')
                 c.assume(z3.And(v >= (49 if (i == 0 and d > 1) else 48), v <= 57))
+                c.var_ranges[str(v)] = (48, 57, v)
                 cells.append(Var(v, CC([(49 if (i == 0 and d > 1) else 48, 57)])))
             c.assume(z3.Sum([(x.cp - 48) * 10 ** (d - 1 - i) for i, x in enumerate(cells)]) == a)
             return mk((['-'] if neg else []) + cells)
